@@ -5,7 +5,8 @@ Import ListNotations.
 Open Scope string_scope.
 
 Inductive binop := OAdd | OMul.
-Inductive rel := RLt | RLe | RGt | RGe.
+(** REq / RNe (round 3): MathML eq / neq, printed by SymPy as (a == b) / (a != b) *)
+Inductive rel := RLt | RLe | RGt | RGe | REq | RNe.
 
 (** [ENum true q] is a [sympy.Float], [ENum false q] an Integer/Rational (the distinction matters
     in [_transform_stoichiometry]); [EPw v r a b e] is [Piecewise((v, a r b), (e, True))];
@@ -97,6 +98,8 @@ Definition q_rel (r : rel) (x y : Q) : bool :=
   | RLe => Qle_bool x y
   | RGt => negb (Qle_bool x y)
   | RGe => Qle_bool y x
+  | REq => Qeq_bool x y
+  | RNe => negb (Qeq_bool x y)
   end.
 
 Definition q_alg : alg Q := {|
@@ -116,7 +119,7 @@ Fixpoint expr_eqb (a b : expr) : bool :=
       match o, o' with OAdd, OAdd | OMul, OMul => true | _, _ => false end && expr_eqb x x' && expr_eqb y y'
   | EPow x n, EPow x' n' => expr_eqb x x' && Z.eqb n n'
   | EPw v r x y e, EPw v' r' x' y' e' =>
-      match r, r' with RLt, RLt | RLe, RLe | RGt, RGt | RGe, RGe => true | _, _ => false end
+      match r, r' with RLt, RLt | RLe, RLe | RGt, RGt | RGe, RGe | REq, REq | RNe, RNe => true | _, _ => false end
       && expr_eqb v v' && expr_eqb x x' && expr_eqb y y' && expr_eqb e e'
   | EFun f x, EFun f' x' => String.eqb f f' && expr_eqb x x'
   | _, _ => false
